@@ -57,9 +57,15 @@ type c17Req struct {
 	key    bool
 	body   int
 	reject string // plugin kind that must reject it ("" = none)
+	keyVal string // X-API-Key value when key is set ("" = the configured one)
 }
 
-var c17Reqs = []c17Req{{"accepted", true, 4, ""}, {"no-api-key", false, 4, "custom-auth"}, {"oversized-body", true, 64, "size_limit"}}
+// requests on both sides of each rejecting plugin's decision, including near misses
+var c17Reqs = []c17Req{{"accepted", true, 4, "", ""}, {"no-api-key", false, 4, "custom-auth", ""}, {"oversized-body", true, 64, "size_limit", ""},
+	{"body-at-limit", true, 8, "", ""}, {"body-one-over-limit", true, 9, "size_limit", ""},
+	{"key-other-case", true, 4, "custom-auth", "SESAME"}, {"key-capitalised", true, 4, "custom-auth", "Sesame"},
+	{"key-prefix", true, 4, "custom-auth", "sesam"}, {"key-extended", true, 4, "custom-auth", "sesame1"},
+	{"key-in-list", true, 4, "custom-auth", "sesame, sesame"}, {"key-quoted", true, 4, "custom-auth", "\"sesame\""}}
 
 func c17Order(r *vres.Report, maxLen int) {
 	start := time.Now()
@@ -100,7 +106,11 @@ func c17Order(r *vres.Report, maxLen int) {
 				baseHits = 0
 				req := httptest.NewRequest("POST", "http://x.test/p", bytes.NewReader(pattern(rq.body, 1)))
 				if rq.key {
-					req.Header.Set("X-API-Key", "sesame")
+					kv := rq.keyVal
+					if kv == "" {
+						kv = "sesame"
+					}
+					req.Header.Set("X-API-Key", kv)
 				}
 				rec := httptest.NewRecorder()
 				h.ServeHTTP(rec, req)
@@ -155,7 +165,7 @@ func c17Order(r *vres.Report, maxLen int) {
 	}
 	rec()
 	r.AddScenario(vres.Scenario{Name: "chain-order-and-gating", Engine: "W", Evaluations: evals, Distinct: int64(outs.N()), Outcomes: outs.N(),
-		Rule:  "every sequence of built-in plugins up to the length, tracing probes at every position, three requests each (accepted, rejected by custom-auth, rejected by size_limit); distinct = (length, request, rejected, status) classes",
+		Rule:  "every sequence of built-in plugins up to the length, tracing probes at every position, eleven requests each (accepted; bodies at and one over the upload limit and far over it; no API key and six near-miss keys); distinct = (length, request, rejected, status) classes",
 		Bound: fmt.Sprintf("all %d-ary sequences of length <= %d (this shard: %d chains)", len(c17Names), maxLen, chains), Exhaustive: true, Sample: sample,
 		Extra: map[string]interface{}{"wall_s": time.Since(start).Seconds()}})
 }
